@@ -736,12 +736,11 @@ func (c *Codec) DecodeStream(reader io.Reader) (framer.Frame, error) {
 			return errors.Newf("unknown channel key: %v", key)
 		}
 		s.DataType = dataType
-		if dataType.IsVariable() {
-			s.Data = make([]byte, dataLenOrSize)
-		} else {
-			s.Data = make([]byte, dataType.Density().Size(int64(dataLenOrSize)))
+		size := int64(dataLenOrSize)
+		if !dataType.IsVariable() {
+			size = int64(dataType.Density().Size(size))
 		}
-		if _, err = c.reader.Read(s.Data); err != nil {
+		if s.Data, err = c.readData(size); err != nil {
 			return err
 		}
 		if !fgs.equalTimeRanges {
@@ -782,6 +781,32 @@ func (c *Codec) DecodeStream(reader io.Reader) (framer.Frame, error) {
 			return framer.Frame{}, err
 		}
 	}
+}
+
+// maxDataPrealloc is the most memory readData allocates before the bytes a frame
+// announces have actually arrived.
+const maxDataPrealloc = 1 << 20
+
+// readData reads size bytes of series data. The size comes from the wire, so anything
+// larger than maxDataPrealloc is read in chunks and the buffer grows with the bytes
+// that were really received: a few bytes of input cannot make the decoder allocate
+// gigabytes.
+func (c *Codec) readData(size int64) ([]byte, error) {
+	if size <= maxDataPrealloc {
+		data := make([]byte, size)
+		_, err := c.reader.Read(data)
+		return data, err
+	}
+	data := make([]byte, 0, maxDataPrealloc)
+	for int64(len(data)) < size {
+		n := int(min(size-int64(len(data)), maxDataPrealloc))
+		start := len(data)
+		data = slices.Grow(data, n)[:start+n]
+		if _, err := c.reader.Read(data[start:]); err != nil {
+			return nil, err
+		}
+	}
+	return data, nil
 }
 
 // readTimeRange reads a time range using the codec's reader.
